@@ -495,7 +495,16 @@ func xAgain(pattern string, st fileseq.PadStyle) string {
 	r1 := show(fileseq.FindSequenceOnDiskPad(pattern, st, all...))
 	_, _ = fileseq.FindSequenceOnDiskPad(pattern, st, all[:1]...)
 	r3 := show(fileseq.FindSequenceOnDiskPad(pattern, st, all...))
-	return showBool(r1 == r3)
+	// … and the same list twice with StrictPadding first and the style as an option behind it
+	styleOpt := fileseq.FileOptPadStyleHash4
+	if st == fileseq.PadStyleHash1 {
+		styleOpt = fileseq.FileOptPadStyleHash1
+	}
+	all2 := []fileseq.FileOption{fileseq.StrictPadding, styleOpt, fileseq.HiddenFiles}
+	q1 := show(fileseq.FindSequenceOnDiskPad(pattern, st, all2...))
+	q2 := show(fileseq.FindSequenceOnDiskPad(pattern, st, all2...))
+	intact := all2[0] == fileseq.StrictPadding && all2[1] == styleOpt && all2[2] == fileseq.HiddenFiles
+	return showBool(r1 == r3 && q1 == q2 && intact)
 }
 
 func genDiskFind(r *Rand, n int, thorough bool, emit func(string)) {
